@@ -771,6 +771,12 @@ P("seed-C19-17", ["C19"], "seeded/C19-17/patch.diff", rule="R-C19-4")
 P("seed-C19-18", ["C19"], "seeded/C19-18/patch.diff", rule="R-C19-4")
 P("seed-C20-17", ["C20"], "seeded/C20-17/patch.diff", rule="R-C20-5")
 P("seed-C20-18", ["C20"], "seeded/C20-18/patch.diff")
+P("seed-C01-19", ["C02"], "seeded/C01-19/patch.diff", rule="R-C02-13")
+P("seed-C06-19", ["C06"], "seeded/C06-19/patch.diff")
+P("seed-C06-20", ["C06"], "seeded/C06-20/patch.diff", rule="O6")
+P("seed-C15-19", ["C15"], "seeded/C15-19/patch.diff", rule="R-C15-3")
+P("seed-C15-20", ["C15"], "seeded/C15-20/patch.diff", rule="R-C15-1")
+P("seed-C16-19", ["C16"], "seeded/C16-19/patch.diff", rule="R-C16-H0")
 B("c03-overlap-one-sided", ["C03"], "helpers.py", "    return max(start_1, start_2) < min(end_1, end_2)\n", "    return start_1 <= start_2 < end_1\n", rule="R-C03-10")
 N("c03-overlap-two-comparisons", ["C03", "C19"], "helpers.py", "    return max(start_1, start_2) < min(end_1, end_2)\n", "    return start_1 < end_2 and start_2 < end_1\n")
 
